@@ -173,6 +173,82 @@ def ambiguous(name, spans, c, case):
     return False
 
 
+def ref_parse(name, c):
+    """Reference reading of a raw name by the documented rule (trailing charge signs, longest symbol first,
+    digits after a symbol are its count). Returns None when the name is not well-formed."""
+    core = name
+    while core.endswith("+"):
+        core = core[:-1]
+    while core.endswith("-"):
+        core = core[:-1]
+    grain = c["kwargs"].get("grain_symbol", "GRAIN")
+    prefix = c["kwargs"].get("surface_prefix", "#")
+    syms = [x.replace("\\", "") for x in c["elements"] + c["pseudo"]] + [grain, prefix]
+    order = sorted(range(len(syms)), key=lambda i: -len(syms[i]))
+    masked = list(core)
+    found = []
+    for i in order:
+        sym = syms[i]
+        if not sym:
+            continue
+        txt = "".join(masked)
+        pos = txt.find(sym)
+        while pos >= 0:
+            found.append((pos, pos + len(sym), sym))
+            for k in range(pos, pos + len(sym)):
+                masked[k] = "\0"
+            txt = "".join(masked)
+            pos = txt.find(sym, pos + len(sym))
+    found.sort()
+    if core == "":
+        return {}  # only charge signs: nothing to decompose (degenerate, not ill-formed)
+    if not found or found[0][0] != 0:
+        return None
+    comp = {}
+    pseudo = {x.replace("\\", "") for x in c["pseudo"]}
+    seen_grain = seen_prefix = False
+    for n, (a, b, sym) in enumerate(found):
+        nxt = found[n + 1][0] if n + 1 < len(found) else len(core)
+        gap = core[b:nxt]
+        if gap and not (gap.isascii() and gap.isdigit()):
+            return None
+        cnt = int(gap) if gap else None
+        sym = c["replacement"].get(sym, sym)
+        if sym in pseudo:
+            continue
+        if sym == prefix:
+            if seen_prefix:
+                return None
+            seen_prefix = True
+            continue
+        if sym == grain:
+            if seen_grain:
+                return None
+            seen_grain = True
+            comp[sym] = comp.get(sym, 0) + 1
+            continue
+        comp[sym] = comp.get(sym, 0) + (cnt if cnt and cnt > 0 else 1)
+    return comp
+
+
+def check_raw(case):
+    from naunet.species import Species
+
+    c = CFG[case["cfg"]]
+    name = case["name"]
+    try:
+        sp = Species(name, **c["kwargs"])
+    except Exception:
+        return CaseResult([], False, [f"cfg-{case['cfg']}", "raw-rejected"], sample={"name": name, "outcome": "rejected"})
+    want = ref_parse(name, c)
+    failures = []
+    if want is None:
+        failures.append(("raw/ill-formed-name-accepted", f"Species({name!r}) [{case['cfg']}] was accepted with element_count={dict(sp.element_count)} although the name is not made of configured symbols, counts and charge signs"))
+    elif dict(sp.element_count) != want:
+        failures.append(("raw/element-count", f"Species({name!r}) [{case['cfg']}].element_count = {dict(sp.element_count)} but the longest-symbol-first reading gives {want}"))
+    return CaseResult(failures, True, [f"cfg-{case['cfg']}", "raw-accepted"], sample={"name": name, "expect": want})
+
+
 def check_case(case, tier):
     from naunet.species import Species
 
@@ -182,6 +258,8 @@ def check_case(case, tier):
         Species.set_known_elements(list(c["elements"]))
         Species.set_known_pseudoelements(list(c["pseudo"]))
         Species._replacement = dict(c["replacement"])
+    if case["kind"] == "raw":
+        return check_raw(case)
     name, spans = spell(case, c)
     labels = [f"cfg-{case['cfg']}", f"kind-{case['kind']}"]
     failures = []
@@ -291,3 +369,12 @@ def check_case(case, tier):
         labels.append("replacement")
     nontrivial = adj or big or replaced or bool(case["label"]) or case["kind"] == "grain" or len(syms) >= 3
     return CaseResult(failures, nontrivial, labels, sample={"name": name, "cfg": case["cfg"], "expect": want_comp})
+
+
+def post_phase(tier, seed):
+    """Thorough tier: coverage-guided supplement (atheris) over the same oracle, empty starting corpus."""
+    if tier != "thorough":
+        return {}
+    from ..fuzz import supplement
+
+    return supplement(PROPERTY, seed, 300000)
